@@ -197,8 +197,9 @@ theorem parse_nonceTcp (pid : Str) (h : Str) (ds : List (Fin 10)) (f : Str) (hh 
        kNoncefile ++ '=' :: f] := by
     show splitOn ',' (['n','o','n','c','e','-','t','c','p',':'] ++ (kHost ++ '=' :: h) ++
       ',' :: (kPort ++ '=' :: ds.map digitChar) ++ ',' :: (kNoncefile ++ '=' :: f)) = _
-    rw [List.append_assoc, List.cons_append, splitOn_append_sep ',' _ _ hA, splitOn_append_sep ',' _ _ hB,
-      splitOn_no_sep ',' _ hC]
+    have e : ∀ X P C : Str, (X ++ ',' :: P) ++ ',' :: C = X ++ ',' :: (P ++ ',' :: C) := by
+      intro X P C; rw [List.append_assoc]; rfl
+    rw [e, splitOn_append_sep ',' _ _ hA, splitOn_append_sep ',' _ _ hB, splitOn_no_sep ',' _ hC]
   have c1 := component_prefixed ['n','o','n','c','e','-','t','c','p',':'] ['t','c','p'] 10 (some kNonceTcp) kHost h none []
     (match_nonce _) rfl (by simp [kHost]) hh.2.2
   have c2 := component_plain kPort (ds.map digitChar) (some ['t','c','p'])
@@ -210,5 +211,78 @@ theorem parse_nonceTcp (pid : Str) (h : Str) (ds : List (Fin 10)) (f : Str) (hh 
   simp [buildEndpoint, C09Endpoints.unixKind, C09Endpoints.tcpKind, C09Endpoints.tcpHostKey, C09Endpoints.tcpPortKey,
     dictGet, dictSet, kHost, kPort, kNoncefile, kNonceTcp, valStr, pyInt_digits ds hne, SpecEntry.endpoint, bind,
     Except.bind]
+
+/-! ## The whole list -/
+
+theorem parse_entry (pid : Str) (e : SpecEntry) (h : e.WF) (path : Option Str) :
+    ∃ path', parseEntry pid e.render path = .ok (some e.endpoint, path') := by
+  cases e with
+  | unixPath p => exact ⟨_, parse_unixPath pid p h path⟩
+  | unixAbstract a => exact ⟨_, parse_unixAbstract pid a h path⟩
+  | tcp hst ds => exact ⟨_, parse_tcp pid hst ds h.1 h.2 path⟩
+  | nonceTcp hst ds f => exact ⟨_, parse_nonceTcp pid hst ds f h.1 h.2.1 h.2.2 path⟩
+
+theorem entries_render (pid : Str) : ∀ (es : List SpecEntry), (∀ e ∈ es, e.WF) → ∀ path : Option Str,
+    entries pid (es.map SpecEntry.render) path = .ok (es.map SpecEntry.endpoint)
+  | [], _, _ => rfl
+  | e :: t, h, path => by
+    obtain ⟨path', hp⟩ := parse_entry pid e (h e List.mem_cons_self) path
+    rw [List.map_cons, entries_cons, hp]
+    simp only [bind, Except.bind]
+    rw [entries_render pid t (fun x hx => h x (List.mem_cons_of_mem _ hx)) path']
+    rfl
+
+theorem renderList_eq_join : ∀ es : List SpecEntry, renderList es = joinWith ';' (es.map SpecEntry.render)
+  | [] => rfl
+  | [_] => rfl
+  | e :: e' :: t => by
+    simp only [renderList, List.map_cons, joinWith]
+    rw [renderList_eq_join (e' :: t)]
+    rfl
+
+theorem render_no_semicolon (e : SpecEntry) (h : e.WF) : ';' ∉ e.render := by
+  cases e with
+  | unixPath p => simp [SpecEntry.render, kPath, h.1]
+  | unixAbstract a => simp [SpecEntry.render, kAbstract, h.1]
+  | tcp hst ds =>
+    have := (digits_plain ds).1
+    simp [SpecEntry.render, kHost, kPort, h.1.1, this]
+  | nonceTcp hst ds f =>
+    have := (digits_plain ds).1
+    simp [SpecEntry.render, kHost, kPort, kNoncefile, h.1.1, h.2.2.1, this]
+
+/-- A rendered entry starts with its transport name: never with 's' (the words `session` / `system`). -/
+theorem render_head (e : SpecEntry) : ∃ c t, e.render = c :: t ∧ c ≠ 's' := by
+  cases e <;> simp [SpecEntry.render]
+
+theorem renderList_head : ∀ es : List SpecEntry, es ≠ [] → ∃ c t, renderList es = c :: t ∧ c ≠ 's'
+  | [], h => absurd rfl h
+  | [e], _ => render_head e
+  | e :: e' :: t, _ => by
+    obtain ⟨c, r, hr, hc⟩ := render_head e
+    exact ⟨c, r ++ ';' :: renderList (e' :: t), by simp [renderList, hr], hc⟩
+
+/-- The parser on the rendering of a well-formed address list: exactly the endpoints of its entries, in
+listed order. -/
+theorem parse_renderList (env : Env) (es : List SpecEntry) (hwf : ∀ e ∈ es, e.WF) :
+    getDBusEndpoints env (renderList es) = .ok (es.map SpecEntry.endpoint) := by
+  cases hes : es with
+  | nil => simp [renderList, getDBusEndpoints, C09Endpoints.sessionWord, C09Endpoints.systemWord, splitOn, entries,
+      components, component, matchPrefix, C09Endpoints.prefixTable, buildEndpoint, bind, Except.bind, pure, Except.pure,
+      List.isPrefixOf]
+  | cons e0 t0 =>
+    rw [← hes]
+    have hne : es ≠ [] := by rw [hes]; simp
+    obtain ⟨c, r, hr, hc⟩ := renderList_head es hne
+    have hs : renderList es ≠ C09Endpoints.sessionWord := by rw [hr]; simp [C09Endpoints.sessionWord, hc]
+    have hy : renderList es ≠ C09Endpoints.systemWord := by rw [hr]; simp [C09Endpoints.systemWord, hc]
+    have hsep : C09Endpoints.entrySep = ';' := by decide
+    simp only [getDBusEndpoints, hs, hy, if_false, hsep]
+    show entries env.pid (splitOn ';' (renderList es)) none = _
+    rw [renderList_eq_join, splitOn_joinWith ';' _ (by simpa using hne)
+      (fun p hp => by
+        obtain ⟨e, he, rfl⟩ := List.mem_map.mp hp
+        exact render_no_semicolon e (hwf e he))]
+    exact entries_render env.pid es hwf none
 
 end Txdbus.Client.Endpoints
